@@ -54,6 +54,7 @@ type Contract struct {
 	Calls     map[string]*Contract // `call <param>[.<method>] requires|ensures|modifies …`: contract of a function-typed parameter or of a method of an interface-typed parameter, as seen by this function
 	ParamInv  []Clause // `invariant e`: required at entry, ensured at exit, maintained by every loop
 	Schema    bool     // instantiated from a schema: clauses that do not resolve for this function are dropped
+	View      string   // `view <name>`: an additional specification of the function, kept apart from its primary contract: it is used (and proved) only in the verification context "view:<name>" (props: ctx), see load.go
 	File      string
 	Line      int
 }
@@ -82,7 +83,7 @@ type SpecFunc struct {
 
 var clauseKeywords = map[string]bool{"func": true, "requires": true, "ensures": true, "modifies": true,
 	"loop": true, "pure": true, "trusted": true, "may_panic": true, "nullable": true, "dyn": true,
-	"callsite": true, "lemma": true, "assume": true, "pkgrule": true, "uses": true, "decreases": true, "invariant": true, "call": true, "opaque": true, "assert": true, "option": true}
+	"callsite": true, "lemma": true, "assume": true, "pkgrule": true, "uses": true, "decreases": true, "invariant": true, "call": true, "opaque": true, "assert": true, "option": true, "view": true}
 
 // rewriteImplies turns `a ==> b` into `implies(a, b)` (lowest precedence, right associative).
 func rewriteImplies(s string) string {
@@ -445,6 +446,11 @@ func parseContractText(lines []string, lineNos []int, file, pkgPath string) (*Co
 			cur.Pure = true
 		case "trusted":
 			cur.Trusted = true
+		case "view":
+			cur.View = strings.TrimSpace(text)
+			if cur.View == "" {
+				return fmt.Errorf("%s:%d: view needs a name", file, p.line)
+			}
 		case "may_panic":
 			cur.MayPanic = true
 		case "nullable":
